@@ -125,51 +125,58 @@ def stores_between(cfg, E, D, tgt, U, places):
 
 def check_index_sites(body, D2):
     cfg = CFG(body)
-    E = ExprBuilder(cfg)
+    builders = [ExprBuilder(cfg), ExprBuilder(cfg, fold_named=True)]   # second: `let n = payload.len()` folded into its uses
     D2.fn(body.path)
     n = 0
     for blk in body.blocks:
         if blk.cleanup:
             continue
         t = blk.term
-        site = None
-        if t.k == 'call' and (t.callee.path in INDEX_CALLS or re.search(r'::(index|get_unchecked\w*|split_at\w*)$', t.callee.path)):
-            bd = bound_of(E, t)
-            if bd is None:
+        verdicts = []
+        for E in builders:
+            site = None
+            if t.k == 'call' and (t.callee.path in INDEX_CALLS or re.search(r'::(index|get_unchecked\w*|split_at\w*)$', t.callee.path)):
+                bd = bound_of(E, t)
+                if bd is None:
+                    continue
+                base = E.operand(t.args[0])
+                site = (bd[0], bd[1], base, show(E.operand(t.args[1])))
+            elif t.k == 'assert' and t.d['ak'] == 'BoundsCheck':
+                ln, ix = [E.operand(Operand(o)) for o in t.d['ops']]
+                site = ('bounds', ix, ln, show(ix))
+            if site is None:
                 continue
-            base = E.operand(t.args[0])
-            site = (bd[0], bd[1], base, show(E.operand(t.args[1])))
-        elif t.k == 'assert' and t.d['ak'] == 'BoundsCheck':
-            ln, ix = [E.operand(Operand(o)) for o in t.d['ops']]
-            site = ('bounds', ix, ln, show(ix))
-        if site is None:
+            kind, end, base, shown = site
+            ok = None
+            why = ''
+            if kind == 'other' or end is None:
+                why = 'unrecognised range form'
+            else:
+                for (cond, truth, Dg) in guards.known(cfg, E, blk.i):
+                    if kind == 'bounds':
+                        covers = truth is True and isinstance(cond, tuple) and cond[0] == 'bin' and cond[1] == 'Lt' and cond[2] == end and cond[3] == base
+                    else:
+                        covers = guard_covers(cond, truth, base, kind, end)
+                    if covers:
+                        # the edge of Dg that dominates blk
+                        tgt = [S for (Dd, S, v, allv) in guards.dominating_edges(cfg, blk.i) if Dd == Dg]
+                        st = stores_between(cfg, E, Dg, tgt[0], blk.i, vars_of(end)) if tgt else 'no edge'
+                        if st is None:
+                            ok = show(cond)
+                            break
+                        why = 'a variable of the bound is stored at %s between guard and use' % st
+                if ok is None and not why:
+                    why = 'no dominating guard `payload.len() >= %s`' % show(end)
+            verdicts.append((ok, why, shown))
+        if not verdicts:
             continue
         n += 1
         D2.sites += 1
-        kind, end, base, shown = site
-        ok = None
-        why = ''
-        if kind == 'other' or end is None:
-            why = 'unrecognised range form'
+        good = [v for v in verdicts if v[0]]
+        if good:
+            D2.ok(sample={'site': body.loc(t.sp), 'access': good[0][2], 'guard': good[0][0]})
         else:
-            for (cond, truth, Dg) in guards.known(cfg, E, blk.i):
-                if kind == 'bounds':
-                    covers = truth is True and isinstance(cond, tuple) and cond[0] == 'bin' and cond[1] == 'Lt' and cond[2] == end and cond[3] == base
-                else:
-                    covers = guard_covers(cond, truth, base, kind, end)
-                if covers:
-                    # the edge of Dg that dominates blk
-                    tgt = [S for (Dd, S, v, allv) in guards.dominating_edges(cfg, blk.i) if Dd == Dg]
-                    st = stores_between(cfg, E, Dg, tgt[0], blk.i, vars_of(end)) if tgt else 'no edge'
-                    if st is None:
-                        ok = show(cond)
-                        break
-                    why = 'a variable of the bound is stored at %s between guard and use' % st
-            if ok is None and not why:
-                why = 'no dominating guard `payload.len() >= %s`' % show(end)
-        if ok:
-            D2.ok(sample={'site': body.loc(t.sp), 'access': shown, 'guard': ok})
-        else:
+            ok, why, shown = verdicts[0]
             D2.violation(('unguarded-payload-access', body.path, shown), 'payload access [%s] at %s can read outside the payload: %s' % (shown, body.loc(t.sp), why), where=body.loc(t.sp))
     D2.floor('payload index sites in ' + body.path, n, 8)
 
